@@ -2,7 +2,7 @@
 MUST-invalidate, MUST-insert, AUTH-value, AUTH-va-writer, MUST-update-resets, FLOW-ts-origin, MUST-wo-node,
 MUST-unlink-both (C01, C05, C06, C07, C11)."""
 from .core import RuleResult, CheckFailure
-from .roles import ev_is, wrapper_kind, write_scheduler
+from .roles import ev_is, wrapper_kind, write_scheduler, ts_name_kind, sync_ts_fields
 from .roles import named
 from .kernel import norm
 from .roles import (get_roles, HASHMAP_REMOVE, HASHMAP_INSERT, DASHMAP_REMOVE, DASHMAP_INSERT, HASHMAP_MUT, DASHMAP_MUT)
@@ -152,6 +152,13 @@ def rule_must_insert(ctx):
             stored = [e[2] for e in upd] + [e[2][-1] for e in ins if e[2]]
             ok = (has_entry or any(e[1] == 'dashmap::DashMap::insert' for e in ins)) and bool(stored) and all(from_value(x) for x in stored)
             r.instance(function=nid, entry=has_entry, occupied_slot_overwritten=bool(upd), vacant_slot_filled=bool(ins), stores_value_param=ok)
+            # the replacement is one atomic step on the key's slot: insert never takes the key out of the map (a concurrent lookup /
+            # iteration would miss a key that was never invalidated)
+            rem = [e for e in p.events if e[0] == 'call' and e[1] in DASHMAP_REMOVE]
+            if rem:
+                r.violate(nid, 'insert-removes', str(rem[0][1]).split('::')[-1], 'a path of sync insert removes the key from the map (%s) before storing the new value: between the two '
+                          'steps the key is absent although it was never invalidated' % rem[0][1], where=ctx.where(nid, rem[0][3]),
+                          expected='replace the value in place under the entry / shard lock')
             if not stored:
                 r.violate(nid, 'no-map-write', 'DashMap::entry', 'a normal path of sync insert does not store into the map slot of the key (neither the occupied slot is '
                           'overwritten nor the vacant one filled)', where=ctx.where(nid), path=[fmt(c)[:70] + ' == ' + str(v) for c, v in p.conds][:6])
@@ -226,7 +233,7 @@ def rule_update_resets(ctx):
             nocc += 1
             n += 1
             for store in ('last_modified', 'last_accessed'):
-                w = [e for e in p.events if e[0] == 'write' and has_field(e[1], (store,)) and has_call(e[1], (OCC_GET_MUT,))]
+                w = [e for e in p.events if e[0] == 'write' and any(isinstance(x, tuple) and x and x[0] == 'fld' and ts_name_kind(x[2]) == ('wo' if store == 'last_modified' else 'ao') for x in subterms(e[1])) and has_call(e[1], (OCC_GET_MUT,))]
                 ok = bool(w) and all(is_clock(e[2]) for e in w)
                 r.instance(function=root, store=store, written=bool(w), value=fmt(w[-1][2])[:60] if w else None, ok=ok)
                 if not w:
@@ -363,8 +370,8 @@ def rule_impl_accessors(ctx):
                    'write-order store (EntryInfo.last_modified, the write-order node), last_accessed / set_last_accessed the access-order store; the lookups '
                    'call these accessors through a trait, so GUARD-live sees only their names')
     prog, eff = ctx.prog, ctx.eff
-    WO = {'last_modified', 'write_order_q_node'}
-    AO = {'last_accessed', 'access_order_q_node'}
+    WO = {'last_modified', 'write_order_q_node'} | {f_ for _a, f_ in sync_ts_fields(ctx) if ts_name_kind(f_) == 'wo'}
+    AO = {'last_accessed', 'access_order_q_node'} | {f_ for _a, f_ in sync_ts_fields(ctx) if ts_name_kind(f_) == 'ao'}
     n = 0
     for item in ('last_accessed', 'set_last_accessed', 'last_modified', 'set_last_modified'):
         for tr in ('common::concurrent::AccessTime', 'unsync::AccessTime'):
